@@ -257,6 +257,156 @@ func runG15(r *Repo, rep *Report) {
 			rep.fail(Finding{Rule: "G15", Key: fmt.Sprintf("G15|%s|%s|%s", b.Name, what, exprStr(x)), Where: []string{r.pos(site.Pos())},
 				Msg: fmt.Sprintf("%s: %s needs len(%s) >= %d but the surrounding code establishes only >= %d: for inputs where %s is shorter goderive panics (index/slice bounds out of range or makeslice: len out of range) instead of ending with a diagnostic", b.Name, exprStr(site), exprStr(x), want, have, exprStr(x))})
 		}
+		// varBound: x[:v] / x[v:] with a variable offset v needs v <= len(x). Accepted grounds: a condition on the way to the cut that
+		// compares v with len of the very operand that is cut (`v > len(x)` false, `v <= len(x)` / `v < len(x)` true); v is the key of
+		// an enclosing range over x; v is an offset that strings.Index/LastIndex returned for x, plus at most the length of the
+		// literal searched for. A test against the length of something else (the byte length of the string whose runes are cut)
+		// establishes nothing about x.
+		varBound := func(site *ast.SliceExpr, x ast.Expr, v *types.Var) {
+			if t := info.TypeOf(x); t != nil {
+				if _, isArr := t.Underlying().(*types.Array); isArr {
+					return
+				}
+			}
+			sites++
+			xs := exprStr(x)
+			isV := func(e ast.Expr) bool {
+				id, ok := ast.Unparen(e).(*ast.Ident)
+				return ok && info.Uses[id] == v
+			}
+			isLenX := func(e ast.Expr) bool {
+				t, ok := lenOf(e)
+				return ok && t == xs
+			}
+			var holds func(cond ast.Expr, neg bool) bool
+			holds = func(cond ast.Expr, neg bool) bool {
+				cond = ast.Unparen(cond)
+				switch c := cond.(type) {
+				case *ast.UnaryExpr:
+					if c.Op == token.NOT {
+						return holds(c.X, !neg)
+					}
+				case *ast.BinaryExpr:
+					switch c.Op {
+					case token.LAND:
+						if !neg {
+							return holds(c.X, false) || holds(c.Y, false)
+						}
+						return false
+					case token.LOR:
+						if neg {
+							return holds(c.X, true) || holds(c.Y, true)
+						}
+						return false
+					}
+					op := c.Op
+					a, bb := c.X, c.Y
+					if isLenX(a) && isV(bb) {
+						a, bb = bb, a
+						switch op {
+						case token.LSS:
+							op = token.GTR
+						case token.LEQ:
+							op = token.GEQ
+						case token.GTR:
+							op = token.LSS
+						case token.GEQ:
+							op = token.LEQ
+						}
+					}
+					if !isV(a) || !isLenX(bb) {
+						return false
+					}
+					if !neg {
+						return op == token.LEQ || op == token.LSS || op == token.EQL
+					}
+					return op == token.GTR
+				}
+				return false
+			}
+			ok := false
+			why := ""
+			var child ast.Node = site
+			for p := b.Parent[child]; p != nil && !ok; child, p = p, b.Parent[p] {
+				stop := false
+				switch y := p.(type) {
+				case *ast.IfStmt:
+					if (child == ast.Node(y.Body) && holds(y.Cond, false)) || (y.Else != nil && child == ast.Node(y.Else) && holds(y.Cond, true)) {
+						ok, why = true, "condition "+exprStr(y.Cond)
+					}
+				case *ast.BlockStmt:
+					for _, st := range y.List {
+						if ast.Node(st) == child {
+							break
+						}
+						if is, isIf := st.(*ast.IfStmt); isIf && is.Else == nil && terminates(is.Body) && holds(is.Cond, true) {
+							ok, why = true, "earlier exit under "+exprStr(is.Cond)
+						}
+					}
+				case *ast.RangeStmt:
+					if kid, isID := y.Key.(*ast.Ident); isID && info.Defs[kid] == v && exprStr(y.X) == xs {
+						ok, why = true, "range key of "+xs
+					}
+				case *ast.ForStmt:
+					if y.Cond != nil && child == ast.Node(y.Body) && holds(y.Cond, false) {
+						ok, why = true, "loop condition "+exprStr(y.Cond)
+					}
+				case *ast.FuncLit:
+					stop = true
+				}
+				if stop {
+					break
+				}
+			}
+			if !ok {
+				// every definition of v: strings.Index*/LastIndex*(x, lit) or v = v + c with c <= len(lit)
+				litLen, searched, good := 0, false, true
+				ast.Inspect(b.Block, func(m ast.Node) bool {
+					as, isAs := m.(*ast.AssignStmt)
+					if !isAs || len(as.Lhs) != len(as.Rhs) {
+						return true
+					}
+					for i, l := range as.Lhs {
+						id, isID := l.(*ast.Ident)
+						if !isID || objOf(info, id) != types.Object(v) {
+							continue
+						}
+						rhs := ast.Unparen(as.Rhs[i])
+						if call, isCall := rhs.(*ast.CallExpr); isCall && len(call.Args) == 2 {
+							if fn, isFn := callee(info, call).(*types.Func); isFn && fn.Pkg() != nil && (fn.Pkg().Path() == "strings" || fn.Pkg().Path() == "bytes") &&
+								(strings.HasPrefix(fn.Name(), "Index") || strings.HasPrefix(fn.Name(), "LastIndex")) && exprStr(call.Args[0]) == xs {
+								searched = true
+								n := 1
+								if tv, isC := info.Types[call.Args[1]]; isC && tv.Value != nil && tv.Value.Kind() == constant.String {
+									n = len(constant.StringVal(tv.Value))
+								}
+								if litLen == 0 || n < litLen {
+									litLen = n
+								}
+								continue
+							}
+						}
+						if be, isBin := rhs.(*ast.BinaryExpr); isBin && be.Op == token.ADD && isV(be.X) {
+							if cst, isC := constInt(be.Y); isC && cst >= 0 && cst <= litLen {
+								continue
+							}
+						}
+						good = false
+					}
+					return true
+				})
+				if searched && good {
+					ok, why = true, "offset of a search in "+xs
+				}
+			}
+			if ok {
+				rep.pass("G15")
+				rep.sample(map[string]string{"rule": "G15 variable offset within the length of the operand that is cut", "site": r.pos(site.Pos()), "ground": why})
+				return
+			}
+			rep.fail(Finding{Rule: "G15", Key: fmt.Sprintf("G15|%s|variable-offset|%s", b.Name, xs), Where: []string{r.pos(site.Pos())},
+				Msg: fmt.Sprintf("%s: %s cuts %s at the variable offset %s, and nothing on the way to the cut compares %s with len(%s) (a test against the length of another value — the byte length of the string whose runes are cut — establishes nothing about %s): for inputs where %s is shorter goderive panics with slice bounds out of range, or silently reads the zeroed spare capacity of a freshly converted slice into a name it prints", b.Name, exprStr(site), xs, v.Name(), v.Name(), xs, xs, xs)})
+		}
 		inspectOwn(b.Block, func(m ast.Node) bool {
 			switch e := m.(type) {
 			case *ast.IndexExpr:
@@ -276,6 +426,18 @@ func runG15(r *Repo, rep *Report) {
 					}
 				}
 			case *ast.SliceExpr:
+				for _, bound := range []ast.Expr{e.Low, e.High} {
+					if bound == nil {
+						continue
+					}
+					if id, ok := ast.Unparen(bound).(*ast.Ident); ok {
+						if v, isVar := info.Uses[id].(*types.Var); isVar {
+							if _, isConst := constInt(bound); !isConst {
+								varBound(e, e.X, v)
+							}
+						}
+					}
+				}
 				lo := 0
 				if e.Low != nil {
 					if c, ok := constInt(e.Low); ok {
